@@ -163,6 +163,19 @@ pub fn run(rec: &mut Recorder, w: &mut World, tier: &str, seed: u64) {
         }
         hists.push(h);
     }
+    // directed: a change made while a switch was off takes effect only at a later call that is not a management call —
+    // the requests asked in between are cached with the old answer, so that later call has to empty the cache whatever the
+    // switch says by then (auto-build off: grouping change stored, link built only by the rebuild / set_role_manager / load)
+    let padm = || St::M(MOp::Add("p".into(), "p".into(), sv(&["admin", "d1", "read", "allow"])));
+    let gadd = || St::M(MOp::Add("g".into(), "g".into(), sv(&["alice", "admin"])));
+    let grm = || St::M(MOp::Rm("g".into(), "g".into(), sv(&["alice", "admin"])));
+    for fin in [St::Build, St::SetRm, St::Load, St::SetModel(0), St::SetAdapter(vec![sv(&["p", "p", "admin", "d1", "read", "allow"]), sv(&["g", "g", "alice", "admin"])])] {
+        hists.push(vec![padm(), St::AutoBuild(false), gadd(), St::AutoBuild(true), fin.clone()]);
+        hists.push(vec![padm(), gadd(), St::AutoBuild(false), grm(), St::AutoBuild(true), fin.clone()]);
+        hists.push(vec![padm(), St::AutoBuild(false), gadd(), fin.clone(), St::AutoBuild(true), fin.clone()]);
+    }
+    let n_dir = hists.len() - n_ex - n_rand;
+    rec.count_n("histories:directed-switch-window", n_dir as u64);
     for (hi, hist) in hists.iter().enumerate() {
         rec.begin();
         let cached = run_once(rec, w, true, hist, &reqf);
